@@ -1,4 +1,6 @@
 import BeyondVerif.Model.PropagF
+import BeyondVerif.Model.DateCfg
+import BeyondVerif.Generated.TdbF
 import BeyondVerif.Drv.Util
 namespace BeyondVerif.Drv.C05
 open BeyondVerif BeyondVerif.Drv BeyondVerif.F
@@ -33,9 +35,109 @@ partial def runHist (stepf : Elts → Float → Elts) (mu : Float) : PropObj →
     | _, _ => none
   | _, _, _, _ => none
 
+
+/-! ### dates: the C03 model instantiated with the configuration regenerated from /repo -/
+
+/-- the TDB−TT term of the translated float formula, rounded to ticks (as in the C03 driver) -/
+def tdbTicks (num : Int) : Int :=
+  let mjd : Float := Float.ofInt num / 864000000000.0
+  (Float.round (F.tdbMinusTt mjd * 10000000.0)).toInt64.toInt
+
+/-- the Earth-orientation environment of a request (missing-data policy `pass` throughout):
+`zero` — no database: every lookup misses, all corrections are 0;
+`mock:<TAI−UTC ticks>:<UT1−UTC ticks>` — a database returning the same record for every date;
+`real` — the IERS tables shipped with the repository (tests/data/pole, regenerated into Generated/EopTable) -/
+def envOf? (s : String) : Option Date.Env :=
+  if s = "zero" then some ⟨fun _ => none, [], .pass, tdbTicks⟩
+  else if s = "real" then some ⟨Date.finalsLookup, Generated.leapTable, .pass, tdbTicks⟩
+  else match s.splitOn ":" with
+    | ["mock", t, u] =>
+      match iOfStr? t, iOfStr? u with
+      | some t, some u => some ⟨fun _ => some u, [(-1000000, t)], .pass, tdbTicks⟩
+      | _, _ => none
+    | _ => none
+
+def scaleOf? (s : String) : Option Nat :=
+  let i := Generated.scalesNames.idxOf s
+  if i < Generated.scalesNames.length then some i else none
+
+def errStr : Date.Err → String
+  | .missingEop => "missing-eop"
+  | .unknownConv => "unknown-conversion"
+  | .noRoute => "no-route"
+  | .nullStep => "null-step"
+  | .incoherent => "incoherent"
+  | .fuel => "fuel"
+
+/-- `Date(datetime, scale=…)`: scale name and clock reading in µs since the MJD origin -/
+def dateOf? (env : Date.Env) (scale us : String) : Option (Except Date.Err Date.Date) := do
+  let sc ← scaleOf? scale
+  let us ← iOfStr? us
+  pure (Date.ofDatetime Date.cfg env sc us)
+
+def toOf (prop : String) (mu : Float) : Option (Orb → Date.Date → Orb) :=
+  if prop = "kepler" then some (keplerTo mu) else if prop = "j2" then some (j2To mu) else none
+
+def toTdOf (prop : String) (env : Date.Env) (mu : Float) : Option (Orb → Int → Except Date.Err Orb) :=
+  if prop = "kepler" then some (keplerToTd Date.cfg env mu) else if prop = "j2" then some (j2ToTd Date.cfg env mu) else none
+
+/-- what is reported of a propagation to a date: the cartesian state, the span (`date − epoch`, µs), the reference-scale
+datetime (µs) and the scale of the date the result carries -/
+def showTo (mu : Float) (epoch : Date.Date) (r : Orb) : String :=
+  cartToStr mu r.elts ++ " @ " ++ toString (Date.subDate r.date epoch) ++ " " ++ toString r.date.datetimeRef ++ " "
+    ++ Generated.scalesNames.getD r.date.scale "?"
+
+/-- the target of one propagation: `D <scale> <µs>` (a date) or `T <µs>` (a timedelta); returns the propagated orbit -/
+def targetTo (prop : String) (env : Date.Env) (mu : Float) (p : PropObjD) (o : Orb) :
+    List String → Option (Except Date.Err (PropObjD × Orb) × List String)
+  | "D" :: scale :: us :: rest =>
+    match toOf prop mu, dateOf? env scale us with
+    | some toF, some (.ok d) =>
+      match orbitPropagateTo toF p o d with
+      | (p', some r) => some (.ok (p', r), rest)
+      | _ => none
+    | some _, some (.error e) => some (.error e, rest)
+    | _, _ => none
+  | "T" :: td :: rest =>
+    match toTdOf prop env mu, iOfStr? td with
+    | some toTd, some t =>
+      -- the setter runs first (`orbitPropagateTo` with the identity), then the propagator works on `_orbit`
+      match orbitPropagateTo (fun c _ => c) p o o.date with
+      | (p', some c) =>
+        match toTd c t with
+        | .ok r => some (.ok (p', r), rest)
+        | .error e => some (.error e, rest)
+      | _ => none
+    | _, _ => none
+  | _ => none
+
+/-- history on ONE orbit object with ONE propagator object, dates included:
+`S a e i Ω ω M` — the orbit now has these mean elements; `E <scale> <µs>` — the orbit's epoch is now this date;
+`D <scale> <µs>` / `T <µs>` — `orbit.propagate(date | timedelta)`; each appends `| <cartesian> @ <span µs> <datetime µs> <scale>` -/
+partial def runHistD (prop : String) (env : Date.Env) (mu : Float) :
+    PropObjD → Option Elts → Option Date.Date → List String → List String → Option (List String)
+  | _, _, _, [], acc => some acc.reverse
+  | p, _, dt, "S" :: rest, acc =>
+    match takeFloats 6 rest with
+    | some ([a, e, i, raan, argp, M], rest) => runHistD prop env mu p (some ⟨a, e, i, raan, argp, M⟩) dt rest acc
+    | _ => none
+  | p, x, _, "E" :: scale :: us :: rest, acc =>
+    match dateOf? env scale us with
+    | some (.ok d) => runHistD prop env mu p x (some d) rest acc
+    | some (.error e) => some (("err " ++ errStr e) :: acc).reverse
+    | none => none
+  | p, some x, some d, toks, acc =>
+    match targetTo prop env mu p ⟨x, d⟩ toks with
+    | some (.ok (p', r), rest) => runHistD prop env mu p' (some x) (some d) rest (showTo mu d r :: acc)
+    | some (.error e, _) => some (("err " ++ errStr e) :: acc).reverse
+    | none => none
+  | _, _, _, _, _ => none
+
 /-- `kepler <mu> <a e i Ω ω M> <dt>` → the six mean elements after `Kepler.propagate`, `|`, the cartesian state
     `j2 <mu> <a e i Ω ω M> <dt>`     → the same for `J2.propagate`
     `hist <kepler|j2> <mu> <S…|P…>…` → `|`-separated cartesian states, one per `P`
+    `histd <kepler|j2> <env> <mu> <S…|E…|D…|T…>…` → the same with dates: epoch and targets given as (scale, clock reading),
+                                        the span is computed by the date model; `|`-separated `cart @ span datetime scale`
     `c05const`                       → G, Earth mass, Earth µ, Earth radius, J2 as regenerated
     `c05sso <a> <e>`                 → cos of the inclination returned by leo.sso(a=a, e=e), and ω_e -/
 def handle : List String → Option String
@@ -55,6 +157,13 @@ def handle : List String → Option String
     match stepOf prop ((fOfStr? mu).getD 0.0), fOfStr? mu with
     | some stepf, some m =>
       match runHist stepf m ⟨none⟩ none rest [] with
+      | some outs => joinWith " | " outs
+      | none => "bad-op"
+    | _, _ => "bad-op"
+  | "histd" :: prop :: envs :: mu :: rest => some <|
+    match envOf? envs, fOfStr? mu with
+    | some env, some m =>
+      match runHistD prop env m ⟨none⟩ none none rest [] with
       | some outs => joinWith " | " outs
       | none => "bad-op"
     | _, _ => "bad-op"
